@@ -6,6 +6,7 @@
 package c13
 
 import (
+	"context"
 	"encoding/json"
 	"fmt"
 	"math/rand"
@@ -179,9 +180,50 @@ func errClass(s string) string {
 	return s
 }
 
+// tracebacks: function names in tracebacks and argument errors are resolved at
+// run time from the call site's debug records (call sites without a static
+// name: fs[i](), tail calls); resolving must not write to the prototype.
+const tracebacks = `
+local fs = {}
+for i = 1, 4 do
+  fs[i] = function(n)
+    if n == 0 then return debug.traceback("tb" .. i) end
+    return (fs[(i % 4) + 1](n - 1))
+  end
+end
+local function scrub(s) return (tostring(s):gsub("0x%x+", "ADDR")) end
+emit(scrub(fs[1](5)))
+emit(scrub(fs[3](2)))
+emit(scrub(fs[2](7)))
+local function tail(n) if n == 0 then return debug.traceback("tail") end return tail(n - 1) end
+emit(scrub(tail(3)))
+emit(scrub(select(2, xpcall(function() fs[2](1); local t = nil; return t.x end, debug.traceback))))
+emit(scrub(select(2, xpcall(function() return fs[4](0) .. nil end, debug.traceback))))
+emit(pcall(function() local m = {f = string.rep}; return m.f() end))
+emit(pcall(function() return ("x"):rep({}) end))
+local co = coroutine.wrap(function() return scrub(fs[1](3)) end)
+emit(co())
+`
+
+func randomSrc(seed int) string {
+	return fmt.Sprintf(`
+math.randomseed(%d)
+local t = {}
+for i = 1, 40 do t[i] = math.random(1000) end
+emit(table.concat(t, ","))
+emit(math.random() < 1, math.random(5, 6) >= 5)
+for i = 1, 400 do t[i %% 40 + 1] = math.random(100000) if i %% 50 == 0 then emit(i) end end
+emit(table.concat(t, ","))
+`, seed)
+}
+
 func buildSource(c *fw.Ctx, idx, k int) string {
 	r := c.SubRand("src", idx*100+k)
-	switch k % 5 {
+	switch (idx + k) % 7 {
+	case 5:
+		return tracebacks
+	case 6:
+		return randomSrc(idx)
 	case 0:
 		return heavy
 	case 1:
@@ -582,11 +624,21 @@ func runChannels(c *fw.Ctx, idx int, count bool) {
 
 // ---------- (C) select readiness and payload refusal ----------
 
-func runSelectAndPayload(c *fw.Ctx, count bool) {
+func runSelectAndPayload(c *fw.Ctx, count bool, withCtx bool) {
 	cs := Case{Kind: "select-payload"}
+	if withCtx {
+		cs.Kind = "select-payload-ctx"
+	}
 	c.Begin(cs)
 	L := lua.NewState()
 	defer L.Close()
+	if withCtx {
+		// the same observations on a state that has an (undone) context attached:
+		// the channel operations take their select-with-Done path
+		ctx, cancel := context.WithCancel(context.Background())
+		defer cancel()
+		L.SetContext(ctx)
+	}
 	var got []string
 	L.SetGlobal("emit", L.NewFunction(func(L *lua.LState) int {
 		var parts []string
@@ -625,6 +677,11 @@ emit("plain", pcall(ch.send, ch, plain))
 local ok, back = ch:receive()
 emit("same-table", ok, rawequal(back, plain))
 emit("scalars", pcall(ch.send, ch, 1), pcall(ch.send, ch, "s"), pcall(ch.send, ch, true), pcall(ch.send, ch, nil))
+-- the same payloads through select's send case
+emit("sel-fn", pcall(channel.select, {"<-|", ch, function() end}))
+emit("sel-ud", pcall(channel.select, {"<-|", ch, newud()}))
+emit("sel-thread", pcall(channel.select, {"<-|", ch, coroutine.create(function() end)}))
+emit("sel-mt-table", pcall(channel.select, {"<-|", ch, setmetatable({}, {})}))
 `
 	o := gl.Protect(func() error { return L.DoString(src) })
 	bad := ""
@@ -647,6 +704,10 @@ emit("scalars", pcall(ch.send, ch, 1), pcall(ch.send, ch, "s"), pcall(ch.send, c
 		"plain":      func(s string) bool { return strings.HasPrefix(s, `"plain",true`) },
 		"same-table": func(s string) bool { return s == `"same-table",true,true` },
 		"scalars":    func(s string) bool { return s == `"scalars",true,true,true,true` },
+		"sel-fn":       func(s string) bool { return strings.HasPrefix(s, `"sel-fn",false`) },
+		"sel-ud":       func(s string) bool { return strings.HasPrefix(s, `"sel-ud",false`) },
+		"sel-thread":   func(s string) bool { return strings.HasPrefix(s, `"sel-thread",false`) },
+		"sel-mt-table": func(s string) bool { return strings.HasPrefix(s, `"sel-mt-table",false`) },
 	}
 	seen := map[string]bool{}
 	for _, e := range got {
@@ -671,11 +732,11 @@ emit("scalars", pcall(ch.send, ch, 1), pcall(ch.send, ch, "s"), pcall(ch.send, c
 		c.End(false, "")
 		return
 	}
-	c.End(true, "select-payload")
+	c.End(true, cs.Kind)
 }
 
 func run(c *fw.Ctx) {
-	n := c.Pick(16, 600)
+	n := c.Pick(28, 700)
 	for i := 0; i < n; i++ {
 		if c.Mine(i) {
 			runCompute(c, i, true)
@@ -687,7 +748,8 @@ func run(c *fw.Ctx) {
 			runChannels(c, i, true)
 		}
 	}
-	runSelectAndPayload(c, true)
+	runSelectAndPayload(c, true, false)
+	runSelectAndPayload(c, true, true)
 }
 
 func replay(c *fw.Ctx, raw json.RawMessage) {
@@ -702,6 +764,6 @@ func replay(c *fw.Ctx, raw json.RawMessage) {
 	case "channels":
 		runChannels(c, cs.Idx, false)
 	default:
-		runSelectAndPayload(c, false)
+		runSelectAndPayload(c, false, cs.Kind == "select-payload-ctx")
 	}
 }
